@@ -329,6 +329,16 @@ impl<'a> LexerCore<'a> {
         self.source[range].iter().map(|c| c.value.value).collect()
     }
 
+    /// Extracts a string from the source code range, omitting characters that
+    /// have been marked as line continuation.
+    fn source_string_without_line_continuations(&self, range: Range<usize>) -> String {
+        self.source[range]
+            .iter()
+            .filter(|c| !c.is_line_continuation)
+            .map(|c| c.value.value)
+            .collect()
+    }
+
     /// Returns a location for a given range of the source code.
     #[must_use]
     fn location_range(&self, range: Range<usize>) -> Location {
@@ -860,6 +870,12 @@ impl<'a> Lexer<'a> {
     #[inline]
     pub fn source_string(&self, range: Range<usize>) -> String {
         self.core.source_string(range)
+    }
+
+    /// Like [`source_string`](Self::source_string), but omits backslash-newline
+    /// pairs that have been skipped as line continuations.
+    pub(super) fn source_string_without_line_continuations(&self, range: Range<usize>) -> String {
+        self.core.source_string_without_line_continuations(range)
     }
 
     /// Returns a location for a given range of the source code.
